@@ -20,11 +20,7 @@ import os
 import sys
 from typing import Any
 
-# mutation testing only: VERIF_C18_SRC=<dir containing pyopenapi_gen/> makes this file (and the translator plug-in)
-# look at a private copy instead of /repo/src.  Never set by ./check.
-_ALT = os.environ.get("VERIF_C18_SRC")
-if _ALT:
-    sys.path.insert(0, _ALT)
+# The implementation is whatever PYTHONPATH puts first (./check: ${VERIF_REPO_ROOT:-/repo}/src).
 
 import httpx  # noqa: E402
 
@@ -590,7 +586,24 @@ def main(chk: Check, replay: dict | None = None) -> int:
     if unprintable:
         chk.broken.append({"kind": "correspondence", "name": "helper raised an exception the model does not have",
                            "mismatches": len(unprintable), "first": {"input": unprintable[0]["input"]}})
-    chk.decide(cases, codes, {1: "F18a", 2: "F18b"},
+    # Attribution of an oracle failure to a listed finding needs model = implementation on the observables the oracle
+    # looks at item by item (lines, events, records; bits 8, 11..17).  A disagreement that is confined to the *shape*
+    # of the byte/text chunks (bits 9, 10: only their concatenation is constrained by the property) is reported as a
+    # broken correspondence of its own and does not turn known findings into violations.
+    dcodes = None
+    if codes is not None:
+        ITEM = (1 << 8) | sum(1 << b for b in range(11, 18))
+        SHAPE = (1 << 9) | (1 << 10)
+        dcodes = [(c & ~1 & 0xFF) | (1 if c & ITEM else 0) for c in codes]
+        shape = [cases[i] for i, c in enumerate(codes) if c & SHAPE]
+        if shape:
+            first = min(shape, key=lambda c: len(json.dumps(c["input"])))
+            chk.broken.append({"kind": "correspondence",
+                               "name": "Corr.C18.run (chunk shapes): iter_bytes / aiter_text items = model's, per chunking",
+                               "mismatches": len(shape), "first": {"input": first["input"], "obs": first["obs"]}})
+            chk.say(f"[C18] chunk-shape correspondence (iter_bytes/aiter_text items) broken on {len(shape)} case(s); "
+                    f"smallest: {json.dumps(first['input'])[:300]}")
+    chk.decide(cases, dcodes, {1: "F18a", 2: "F18b"},
                "Corr.C18.run: model(chunks) = real helpers over httpx.Response(content=<async chunk iterator>)")
     if codes is not None:
         diag = {}
